@@ -834,10 +834,14 @@ def alphabet(spec, tier):
 
 
 def observations(spec, tier="thorough"):
+    """The renders/rows asked at the end of every history.  The last render repeats the first one: a render
+    at another size/focus in between may itself change widget state (scroll position, list offset), and
+    a canvas cached for the first key must not survive that."""
     typ = _typ_of(spec)
     obs = [("render", 0, True), ("render", 0, False), ("render", 1, True)]
     if tier != "quick":
         obs.append(("render", 1, False))
+    obs.append(("render", 0, True))
     if typ == "flow":
         obs.append(("rows", 0, True))
         if tier != "quick":
@@ -1154,7 +1158,7 @@ def select_trees(tier, seed):
             else:
                 leaf = fl[i % len(fl)]
                 i += 1
-            plan.append(([n, [leaf]], "quick", 3, ("sample", 200)))
+            plan.append(([n, [leaf]], "quick", 3, ("sample", 150)))
         # depth 2: seeded choice, every inner kind four times as the middle node
         by_mid = {}
         for t in d2:
@@ -1192,18 +1196,17 @@ def select_trees(tier, seed):
 
 
 def admissible(h):
-    """Declared reductions of the history space (each removes only histories whose check is implied by,
-    or identical to, another enumerated one):
+    """Declared reductions of the history space:
       * at least one render step (otherwise the cache is empty and both runs execute identical code);
-      * no immediately repeated identical render/rows/gc step;
-      * from length 3 on, the last step is not a render/rows (the observations that follow are renders
-        and rows themselves; render/rows in the middle of a history are all kept)."""
+      * no immediately repeated identical render/rows/gc step.
+    (A third reduction, "no render as the last step of a 3-step history because the observations are
+    renders anyway", was dropped: renders can change widget state, e.g. Scrollable clamps its scroll
+    position to the rendered size, so [prepare, render A, render B] followed by observing A is not
+    implied by any shorter history.)"""
     L = len(h)
     if not any(st[0] == "render" for st in h):
         return False
     if any(h[i] == h[i + 1] and h[i][0] in ("render", "rows", "gc") for i in range(L - 1)):
-        return False
-    if L >= 3 and h[-1][0] in ("render", "rows"):
         return False
     return True
 
@@ -1276,7 +1279,7 @@ def work(task):
                     if not bad:
                         continue
                     res["nfail"][cl] += 1
-                    if res["nfail"][cl] <= 25:
+                    if res["nfail"][cl] <= 12:
                         mini = shrink(spec, h, cl, tier)
                         sig = signature(spec, mini)
                     else:
@@ -1336,13 +1339,13 @@ def run(tier="quick", seed=0):
 
     ntrees = len(seen_tree)
     if tier == "quick":
-        scope = "all 12 leaves alone (histories <= 3 steps, exhaustive), all 204 root+leaf trees (<= 2 steps exhaustive; 200 seeded 3-step histories on one tree per root kind), 2 seeded root+middle+leaf trees per middle kind (<= 2 steps exhaustive)"
+        scope = "all 12 leaves alone (histories <= 3 steps, exhaustive), all 204 root+leaf trees (<= 2 steps exhaustive; 150 seeded 3-step histories on one tree per root kind), 2 seeded root+middle+leaf trees per middle kind (<= 2 steps exhaustive)"
     else:
         scope = "all 12 leaves alone (<= 3 steps exhaustive over the full alphabet, 3000 seeded 4-step), all 204 root+leaf trees (<= 2 steps full alphabet exhaustive; 3 steps over the reduced alphabet exhaustive on a set covering every root and leaf kind, 250 seeded on the others; 80 seeded 4-step), 150 seeded depth-2 trees (<= 2 exhaustive, 150 seeded 3-step) and 100 seeded depth-3 trees (<= 2 exhaustive, 100 seeded 4-step)"
     bound = (
         f"{len(KINDS)} widget kinds ({len(LEAVES)} leaves, {len(INNER)} decorations/containers) in chain-shaped trees with fixed siblings, {ntrees} trees: {scope}; "
         "steps = render(2 sizes x focus) / rows / every public mutator of every node / keys and mouse at the root / drop held canvases + gc.collect(); "
-        f"each history observed at its end by {3 if tier == 'quick' else 4} renders (+{1 if tier == 'quick' else 2} rows for flow roots) in two runs (cache as-is / CanvasCache.clear() first)"
+        f"each history observed at its end by {4 if tier == 'quick' else 5} renders (+{1 if tier == 'quick' else 2} rows for flow roots) in two runs (cache as-is / CanvasCache.clear() first)"
     )
     checks = {}
     for cl in ("cached-equals-fresh", "rows-cached-equals-fresh", "handed-out-unchanged"):
